@@ -1,6 +1,7 @@
 import DVP.Lemmas.LoopFault
 import DVP.Properties.C03
 import DVP.Lemmas.LoopEv
+import DVP.Lemmas.LoopDense
 /-!
 # C12 — a failure leaves a consistent, resumable prefix of the trajectory
 
@@ -97,11 +98,49 @@ event functions (including one that raises inside `handle_events` — the step i
 nested call of a terminal event (faults and interrupts included): the samples present at the start of the call
 stay in place at the head of the trajectory, and the events recorded by earlier calls stay in place at the head
 of the event list. -/
-theorem event_call_keeps_what_was_recorded (cfg : DV.LoopEv.CfgEv ℚ) (s : Sys ℚ) (evs : List (Nat × ℚ)) (nEvents : Nat)
+theorem event_call_keeps_what_was_recorded (cfg : DV.LoopEv.CfgEv ℚ) (s : Sys ℚ) (evs : List (Nat × ℚ)) (kn : List ℚ) (nEvents : Nat)
     (target : ℚ) (orc : DV.LoopEv.OracleEv ℚ) (fuel : Nat) (hne : s.ts ≠ []) :
-    (∃ news, (DV.LoopEv.integrateEv cfg s evs nEvents target orc fuel).sys.ts = news ++ s.ts) ∧
-    (∃ more, (DV.LoopEv.integrateEv cfg s evs nEvents target orc fuel).book.events = evs ++ more) :=
-  ⟨(DVP.LoopEv.integrateEv_outcome cfg s evs nEvents target orc fuel hne).1,
-   (DVP.LoopEv.integrateEv_outcome cfg s evs nEvents target orc fuel hne).2.1⟩
+    (∃ news, (DV.LoopEv.integrateEv cfg s evs kn nEvents target orc fuel).sys.ts = news ++ s.ts) ∧
+    (∃ more, (DV.LoopEv.integrateEv cfg s evs kn nEvents target orc fuel).book.events = evs ++ more) :=
+  ⟨(DVP.LoopEv.integrateEv_outcome cfg s evs kn nEvents target orc fuel hne).1,
+   (DVP.LoopEv.integrateEv_outcome cfg s evs kn nEvents target orc fuel hne).2.1⟩
+
+/-- **Dense output covers exactly the recorded steps, however the call ends** (forward integration, dense output
+on, one piece per step).  If the container holds the pieces of the recorded steps when `integrate(t, events=…)`
+is called, it holds exactly the pieces of the recorded steps when the call returns or raises: whatever the
+integrator, the event functions (a raising one: the piece of the dropped step is taken out), the callbacks and
+the nested call of a terminal event (the piece of the rolled-back step is taken out, the nested call's pieces are
+added) do.  Hypothesis: accepted steps do not go backward (`0 ≤ dTime`), in the outer and in the nested calls. -/
+theorem dense_pieces_are_the_recorded_steps (cfg : DV.LoopEv.CfgEv ℚ) (hd : cfg.dense = true) (s : Sys ℚ)
+    (evs : List (Nat × ℚ)) (nEvents : Nat) (target : ℚ) (orc : DV.LoopEv.OracleEv ℚ) (fuel : Nat)
+    (hf : DVP.LoopDense.FwdOrcEv orc) (hne : s.ts ≠ []) :
+    (DV.LoopEv.integrateEv cfg s evs (DVP.LoopDense.knotsOf s.ts) nEvents target orc fuel).knots =
+      DVP.LoopDense.knotsOf (DV.LoopEv.integrateEv cfg s evs (DVP.LoopDense.knotsOf s.ts) nEvents target orc fuel).sys.ts :=
+  DVP.LoopDense.integrateEv_knots cfg hd s evs nEvents target orc fuel hf hne
+
+/-- … and the mirror image for backward integration (strictly backward steps; the pieces are inserted at the front of
+the container, which stays ordered by time): the knots are the recorded samples, newest first, without the first. -/
+theorem dense_pieces_are_the_recorded_steps_backward (cfg : DV.LoopEv.CfgEv ℚ) (hd : cfg.dense = true) (s : Sys ℚ)
+    (evs : List (Nat × ℚ)) (nEvents : Nat) (target : ℚ) (orc : DV.LoopEv.OracleEv ℚ) (fuel : Nat)
+    (hf : DVP.LoopDense.BwdOrcEv orc) (hne : s.ts ≠ []) (ha : DVP.LoopDense.Asc s.ts) :
+    (DV.LoopEv.integrateEv cfg s evs (DVP.LoopDense.knotsOfB s.ts) nEvents target orc fuel).knots =
+      DVP.LoopDense.knotsOfB (DV.LoopEv.integrateEv cfg s evs (DVP.LoopDense.knotsOfB s.ts) nEvents target orc fuel).sys.ts :=
+  DVP.LoopDense.integrateEv_knots_bwd cfg hd s evs nEvents target orc fuel hf hne ha
+
+/-- non-vacuity (backward): a terminal event in the second step of a run from 1 to 0 -/
+example :
+    let cfg : DV.LoopEv.CfgEv ℚ := { loop := { eps := 1/2^50, tolEps := 1/2^47, half := 1/2 }, dupTol := 1/2^30 }
+    let p : DV.Events.Probe ℚ := { root := 11/20, success := true, gm := 1, gc := 0, gp := -1, fields := [], direction := 0, terminal := true }
+    let orc : DV.LoopEv.OracleEv ℚ := fun k _ h =>
+      { base := { ret := .ok h h }, probes := if k = 1 then [p] else [], nested := fun _ _ h => { ret := .ok h h }, nestedFuel := 10 }
+    let o := DV.LoopEv.integrateEv cfg (construct 1 0 (3/10)) [] [] 1 0 orc 50
+    o.stopped = true ∧ o.sys.status = 2 ∧ o.sys.ts = [11/20, 5/8, 7/10, 1] ∧ o.knots = [11/20, 5/8, 7/10] := by decide +kernel
+
+/-- non-vacuity: an event function that raises in the third step — two pieces for two recorded steps, status 3 -/
+example :
+    let cfg : DV.LoopEv.CfgEv ℚ := { loop := { eps := 1/2^50, tolEps := 1/2^47, half := 1/2 }, dupTol := 1/2^30 }
+    let orc : DV.LoopEv.OracleEv ℚ := fun k _ h => { base := { ret := .ok h h }, evRaise := decide (k = 2) }
+    let o := DV.LoopEv.integrateEv cfg (construct 0 1 (3/10)) [] [] 1 1 orc 50
+    o.sys.status = 3 ∧ o.sys.ts = [3/5, 3/10, 0] ∧ o.knots = [3/10, 3/5] := by decide +kernel
 
 end DVP.C12
